@@ -336,6 +336,10 @@ def read_tree(root):
         for name in dirs:
             out[os.path.normpath(os.path.join(rel, name)) + "/"] = None
         for name in files:
-            with open(os.path.join(d, name), "rb") as f:
+            p = os.path.join(d, name)
+            if os.path.islink(p):
+                out[os.path.normpath(os.path.join(rel, name))] = ("<symlink>", os.readlink(p))
+                continue
+            with open(p, "rb") as f:
                 out[os.path.normpath(os.path.join(rel, name))] = f.read()
     return out
